@@ -753,4 +753,800 @@ theorem addAll_perm {rate : Rate} {w w2 : DecWork} {l l' : List AddOp} (hinv : D
     (hp : l.Perm l') (h : w.addAll l = .ok w2) : w.addAll l' = .ok w2 :=
   DecWork.addAll_perm_aux hp hinv.bitsOk h
 
+/-! ### 9. a given original is never "restored" -/
+
+theorem Decoder.decode_ok_out {lw : Array Nat} {d d' : Decoder} {out : List (Nat × Array Nat)}
+    {rate : Rate} {w : DecWork} (hin : d.inner = .some rate w) (h : d.decode lw = (.ok out, d')) :
+    w.k ≤ w.orecv + w.rrecv ∧
+    out = (if w.orecv = w.k then w
+           else { w with mem := decodeMem rate d.sched lw w.k w.r w.recvAt w.mem }).restoredList := by
+  unfold Decoder.decode at h
+  rw [hin] at h
+  simp only at h
+  split at h
+  · simp only [Prod.mk.injEq] at h
+    cases h.1
+  · rename_i hge
+    refine ⟨by omega, ?_⟩
+    split at h
+    · rename_i hk
+      simp only [Prod.mk.injEq, Outcome.ok.injEq] at h
+      rw [if_pos hk]; exact h.1.symm
+    · rename_i hk
+      simp only [Prod.mk.injEq, Outcome.ok.injEq] at h
+      rw [if_neg hk]; exact h.1.symm
+
+/-- the indexes a successful `decode` hands out are exactly the in-range originals that were not
+    given, in ascending order; in particular a given original is never among them -/
+theorem given_not_restored {lw : Array Nat} {d d' : Decoder} {out : List (Nat × Array Nat)}
+    {rate : Rate} {w : DecWork} (hin : d.inner = .some rate w) (h : d.decode lw = (.ok out, d')) :
+    out.map (·.1) = (List.range w.k).filter (fun i => !(w.recvAt (w.obase + i))) ∧
+    ∀ i, w.recvAt (w.obase + i) = true → i ∉ out.map (·.1) := by
+  have hout := (Decoder.decode_ok_out hin h).2
+  have h1 : out.map (·.1) = (List.range w.k).filter (fun i => !(w.recvAt (w.obase + i))) := by
+    rw [hout]
+    split
+    · exact restoredList_indices w
+    · exact restoredList_indices
+        ({ w with mem := decodeMem rate d.sched lw w.k w.r w.recvAt w.mem } : DecWork)
+  refine ⟨h1, ?_⟩
+  intro i hi hmem
+  rw [h1, List.mem_filter] at hmem
+  rw [hi] at hmem
+  cases hmem.2
+
+/-! ### 10. all originals given: nothing to restore -/
+
+theorem countSet_le (bits : Array Bool) (base : Nat) : ∀ n, countSet bits base n ≤ n
+  | 0 => Nat.le_refl _
+  | n + 1 => by
+    have := countSet_le bits base n
+    simp only [countSet]
+    split <;> omega
+
+theorem countSet_eq_all (bits : Array Bool) (base : Nat) :
+    ∀ n, countSet bits base n = n → ∀ m, m < n → bits.getD (base + m) false = true
+  | 0 => fun _ m hm => absurd hm (Nat.not_lt_zero _)
+  | n + 1 => by
+    intro h m hm
+    have hle := countSet_le bits base n
+    simp only [countSet] at h
+    by_cases hb : bits.getD (base + n) false = true
+    · rw [if_pos hb] at h
+      by_cases hmn : m = n
+      · subst hmn; exact hb
+      · exact countSet_eq_all bits base n (by omega) m (by omega)
+    · rw [if_neg hb] at h
+      omega
+
+theorem all_given_recvAt {rate : Rate} {w : DecWork} (hinv : DecWork.Inv rate w)
+    (hall : w.orecv = w.k) : ∀ i, i < w.k → w.recvAt (w.obase + i) = true := by
+  have h := hinv.orecv
+  rw [hall] at h
+  exact countSet_eq_all w.received w.obase w.k h.symm
+
+theorem all_given_empty {rate : Rate} {w : DecWork} (hinv : DecWork.Inv rate w)
+    (hall : w.orecv = w.k) : w.restoredList = [] := by
+  have hr := all_given_recvAt hinv hall
+  unfold DecWork.restoredList
+  rw [List.filterMap_eq_nil_iff]
+  intro i hi
+  have hik : i < w.k := List.mem_range.mp hi
+  have : w.restoredOriginal i = none := by
+    rw [restoredOriginal_eq_none_iff, hr i hik]
+    intro hh; cases hh.2
+  rw [this]; rfl
+
+/-- with all `k` originals given `decode` returns the empty list, whatever recovery shards
+    were added on top -/
+theorem decode_all_given {lw : Array Nat} {d : Decoder} {rate : Rate} {w : DecWork}
+    (hin : d.inner = .some rate w) (hinv : DecWork.Inv rate w) (hall : w.orecv = w.k) :
+    d.decode lw = (.ok [], { d with inner := .some rate w.resetReceived }) := by
+  unfold Decoder.decode
+  rw [hin]
+  simp only
+  have h1 : ¬ (w.orecv + w.rrecv < w.k) := by omega
+  rw [if_neg h1, if_pos hall, all_given_empty hinv hall]
+
+/-! ### the two windows of the bitmap are disjoint (not needed above, recorded for C11) -/
+
+theorem le_ite_chain (n c x : Nat) (hx : n ≤ x) : n ≤ if n ≤ c then c else x := by
+  by_cases h : n ≤ c
+  · rw [if_pos h]; exact h
+  · rw [if_neg h]; exact hx
+
+theorem le_npow2 (n : Nat) (h : n ≤ 65536) : n ≤ npow2 n := by
+  unfold npow2
+  iterate 16 apply le_ite_chain
+  rw [if_pos h]; exact h
+
+theorem supportsRate_lt {rate : Rate} {k r : Nat} (h : supportsRate rate k r = true) :
+    k < 65536 ∧ r < 65536 := by
+  cases rate <;>
+    simp only [supportsRate, supportsHigh, supportsLow, Bool.and_eq_true, decide_eq_true_eq] at h <;>
+    exact ⟨h.1.1.2, h.1.2⟩
+
+/-- original window `[obase, obase + k)` and recovery window `[rbase, rbase + r)` never meet -/
+theorem windows_disjoint {rate : Rate} {w : DecWork} (hinv : DecWork.Inv rate w) {i j : Nat}
+    (hi : i < w.k) (hj : j < w.r) : w.obase + i ≠ w.rbase + j := by
+  have hlt := supportsRate_lt hinv.supported
+  have hk := le_npow2 w.k (by omega)
+  have hr := le_npow2 w.r (by omega)
+  have ho := hinv.obase
+  have hrb := hinv.rbase
+  cases rate
+  · simp only at ho hrb; omega
+  · simp only at ho hrb; omega
+
+/-! ### 8'. the same at the level of the decoder object -/
+
+def Decoder.addOp (d : Decoder) : AddOp → Outcome Unit × Decoder
+  | .orig i s => d.addOriginal i s
+  | .recov j t => d.addRecovery j t
+
+/-- a sequence of add calls on the decoder object, stopping at the first that is not `ok` -/
+def Decoder.addOps (d : Decoder) : List AddOp → Outcome Decoder
+  | [] => .ok d
+  | a :: l =>
+    match d.addOp a with
+    | (.ok _, d1) => d1.addOps l
+    | (.err e, _) => .err e
+    | (.panic why, _) => .panic why
+
+theorem Decoder.addOp_eq {d : Decoder} {rate : Rate} {w : DecWork} (hin : d.inner = .some rate w)
+    (a : AddOp) :
+    d.addOp a = match w.addOp a with
+      | .ok w' => (.ok (), { d with inner := .some rate w' })
+      | .err er => (.err er, d)
+      | .panic why => (.panic why, d) := by
+  cases a <;> simp only [Decoder.addOp, Decoder.addOriginal, Decoder.addRecovery, hin, DecWork.addOp] <;> rfl
+
+theorem Decoder.addOps_eq (l : List AddOp) :
+    ∀ {d : Decoder} {rate : Rate} {w : DecWork}, d.inner = .some rate w →
+      d.addOps l = match w.addAll l with
+        | .ok w' => .ok { d with inner := .some rate w' }
+        | .err er => .err er
+        | .panic why => .panic why := by
+  induction l with
+  | nil =>
+    intro d rate w hin
+    simp only [Decoder.addOps, DecWork.addAll]
+    cases d
+    simp only at hin
+    subst hin
+    rfl
+  | cons a l ih =>
+    intro d rate w hin
+    simp only [Decoder.addOps, DecWork.addAll, Decoder.addOp_eq hin]
+    cases w.addOp a with
+    | ok w1 =>
+      simp only
+      rw [ih (d := { d with inner := .some rate w1 }) rfl]
+    | err er => rfl
+    | panic why => rfl
+
+theorem Decoder.addOps_ok_iff {d d1 : Decoder} {rate : Rate} {w : DecWork} {l : List AddOp}
+    (hin : d.inner = .some rate w) :
+    d.addOps l = .ok d1 ↔ ∃ w1, w.addAll l = .ok w1 ∧ d1 = { d with inner := .some rate w1 } := by
+  rw [Decoder.addOps_eq l hin]
+  cases w.addAll l with
+  | ok w1 =>
+    simp only [Outcome.ok.injEq]
+    constructor
+    · intro e; exact ⟨w1, rfl, e.symm⟩
+    · rintro ⟨w1', e1, e2⟩; subst e1; exact e2.symm
+  | err er => simp
+  | panic why => simp
+
+/-- any order / interleaving of the same successful adds leaves the decoder object in the same
+    state, hence `decode` gives the same answer -/
+theorem Decoder.addOps_perm {d d1 : Decoder} (hinv : Decoder.Inv d) {l l' : List AddOp}
+    (hp : l.Perm l') (h : d.addOps l = .ok d1) : d.addOps l' = .ok d1 := by
+  obtain ⟨rate, w, hin, _, hw⟩ := hinv
+  obtain ⟨w1, h1, e⟩ := (Decoder.addOps_ok_iff hin).mp h
+  exact (Decoder.addOps_ok_iff hin).mpr ⟨w1, addAll_perm hw hp h1, e⟩
+
+theorem Decoder.decode_perm {lw : Array Nat} {d d1 : Decoder} (hinv : Decoder.Inv d)
+    {l l' : List AddOp} (hp : l.Perm l') (h : d.addOps l = .ok d1) :
+    ∃ d1', d.addOps l' = .ok d1' ∧ d1'.decode lw = d1.decode lw :=
+  ⟨d1, Decoder.addOps_perm hinv hp h, rfl⟩
+
+/-! ### 6'. any number of consecutive rounds -/
+
+/-- add every shard in order, stopping at the first call that is not `ok` -/
+def Encoder.addAll (e : Encoder) : List (Array Nat) → Outcome Encoder
+  | [] => .ok e
+  | s :: ss =>
+    match e.add s with
+    | (.ok _, e1) => e1.addAll ss
+    | (.err er, _) => .err er
+    | (.panic why, _) => .panic why
+
+/-- one round: add the shards, encode, read and drop the result -/
+def Encoder.round (e : Encoder) (l : List (Array Nat)) : Outcome (List (Array Nat) × Encoder) :=
+  match e.addAll l with
+  | .ok e1 =>
+    match e1.encode with
+    | (.ok out, e2) => .ok (out, e2)
+    | (.err er, _) => .err er
+    | (.panic why, _) => .panic why
+  | .err er => .err er
+  | .panic why => .panic why
+
+def Encoder.rounds (e : Encoder) :
+    List (List (Array Nat)) → Outcome (List (List (Array Nat)) × Encoder)
+  | [] => .ok ([], e)
+  | l :: ls =>
+    match e.round l with
+    | .ok (out, e1) =>
+      match e1.rounds ls with
+      | .ok (outs, e2) => .ok (out :: outs, e2)
+      | .err er => .err er
+      | .panic why => .panic why
+    | .err er => .err er
+    | .panic why => .panic why
+
+theorem EncWork.reset_ok_recv {stale : Stale} {w w' : EncWork} {k r sb wc : Nat}
+    (h : w.reset stale k r sb wc = .ok w') :
+    w'.recv = 0 ∧ (w'.k, w'.r, w'.sb) = (k, r, sb) := by
+  unfold EncWork.reset at h
+  split at h
+  · cases h
+  · simp only [Outcome.ok.injEq] at h
+    subst h
+    exact ⟨rfl, rfl⟩
+
+theorem EncWork.add_ok_state {w w' : EncWork} {s : Array Nat} (h : w.add s = .ok w') :
+    (w'.k, w'.r, w'.sb) = (w.k, w.r, w.sb) ∧ w'.recv = w.recv + 1 := by
+  unfold EncWork.add at h
+  split at h
+  · cases h
+  · split at h
+    · cases h
+    · split at h
+      · split at h
+        · simp only [Outcome.ok.injEq] at h
+          subst h
+          exact ⟨rfl, rfl⟩
+        · cases h
+      · cases h
+
+theorem Encoder.add_ok_state {e e' : Encoder} {u : Unit} {s : Array Nat} {rate : Rate}
+    {w : EncWork} (hin : e.inner = .some rate w) (h : e.add s = (.ok u, e')) :
+    ∃ w', e'.inner = .some rate w' ∧ (w'.k, w'.r, w'.sb) = (w.k, w.r, w.sb) ∧
+      w'.recv = w.recv + 1 := by
+  unfold Encoder.add at h
+  rw [hin] at h
+  simp only at h
+  split at h
+  · rename_i w' hw
+    simp only [Prod.mk.injEq] at h
+    obtain ⟨_, h2⟩ := h
+    subst h2
+    exact ⟨w', rfl, EncWork.add_ok_state hw⟩
+  · simp only [Prod.mk.injEq] at h; cases h.1
+  · simp only [Prod.mk.injEq] at h; cases h.1
+
+theorem Encoder.addAll_ok_state (l : List (Array Nat)) :
+    ∀ {e e1 : Encoder} {rate : Rate} {w : EncWork}, e.inner = .some rate w →
+      e.addAll l = .ok e1 →
+      ∃ w1, e1.inner = .some rate w1 ∧ (w1.k, w1.r, w1.sb) = (w.k, w.r, w.sb) ∧
+        w1.recv = w.recv + l.length := by
+  induction l with
+  | nil =>
+    intro e e1 rate w hin h
+    simp only [Encoder.addAll, Outcome.ok.injEq] at h
+    subst h
+    exact ⟨w, hin, rfl, rfl⟩
+  | cons s ss ih =>
+    intro e e1 rate w hin h
+    simp only [Encoder.addAll] at h
+    split at h
+    · rename_i u e2 hadd
+      obtain ⟨w2, hin2, hc2, hr2⟩ := Encoder.add_ok_state hin hadd
+      obtain ⟨w1, hin1, hc1, hr1⟩ := ih hin2 h
+      refine ⟨w1, hin1, hc1.trans hc2, ?_⟩
+      rw [hr1, hr2, List.length_cons]; omega
+    · cases h
+    · cases h
+
+/-- a successful round from a fresh state: exactly `k` shards were added, `r` recovery shards
+    come out, and the state is fresh again with the same configuration -/
+theorem Encoder.round_ok_state {e e' : Encoder} {l : List (Array Nat)} {out : List (Array Nat)}
+    {rate : Rate} {w : EncWork} (hin : e.inner = .some rate w) (hfresh : w.recv = 0)
+    (h : e.round l = .ok (out, e')) :
+    ∃ w', e'.inner = .some rate w' ∧ w'.recv = 0 ∧ (w'.k, w'.r, w'.sb) = (w.k, w.r, w.sb) ∧
+      l.length = w.k ∧ out.length = w.r := by
+  unfold Encoder.round at h
+  split at h
+  · rename_i e1 hadd
+    obtain ⟨w1, hin1, hc1, hr1⟩ := Encoder.addAll_ok_state l hin hadd
+    split at h
+    · rename_i out' e2 henc
+      simp only [Outcome.ok.injEq, Prod.mk.injEq] at h
+      obtain ⟨ho, he⟩ := h
+      subst ho; subst he
+      obtain ⟨w2, hin2, hr2, hc2, _, _, _, _, _, hfull, hout⟩ := Encoder.encode_ok_state hin1 henc
+      simp only [Prod.mk.injEq] at hc1 hc2
+      refine ⟨w2, hin2, hr2, ?_, ?_, ?_⟩
+      · simp only [Prod.mk.injEq]
+        exact ⟨hc2.1.trans hc1.1, hc2.2.1.trans hc1.2.1, hc2.2.2.trans hc1.2.2⟩
+      · rw [← hc1.1, ← hfull, hr1, hfresh]; omega
+      · rw [hout, recoveryList_length]; exact hc1.2.1
+    · cases h
+    · cases h
+  · cases h
+  · cases h
+
+/-- any number of consecutive successful rounds: the object is fresh again, same configuration -/
+theorem Encoder.rounds_ok_state (ls : List (List (Array Nat))) :
+    ∀ {e e' : Encoder} {outs : List (List (Array Nat))} {rate : Rate} {w : EncWork},
+      e.inner = .some rate w → w.recv = 0 → e.rounds ls = .ok (outs, e') →
+      ∃ w', e'.inner = .some rate w' ∧ w'.recv = 0 ∧ (w'.k, w'.r, w'.sb) = (w.k, w.r, w.sb) ∧
+        (∀ l ∈ ls, l.length = w.k) ∧ outs.length = ls.length ∧ ∀ out ∈ outs, out.length = w.r := by
+  induction ls with
+  | nil =>
+    intro e e' outs rate w hin hfresh h
+    simp only [Encoder.rounds, Outcome.ok.injEq, Prod.mk.injEq] at h
+    obtain ⟨h1, h2⟩ := h
+    subst h1; subst h2
+    exact ⟨w, hin, hfresh, rfl, by simp, rfl, by simp⟩
+  | cons l ls ih =>
+    intro e e' outs rate w hin hfresh h
+    simp only [Encoder.rounds] at h
+    split at h
+    · rename_i out e1 hround
+      obtain ⟨w1, hin1, hr1, hc1, hl, ho⟩ := Encoder.round_ok_state hin hfresh hround
+      split at h
+      · rename_i outs' e2 hrest
+        simp only [Outcome.ok.injEq, Prod.mk.injEq] at h
+        obtain ⟨h1, h2⟩ := h
+        subst h1; subst h2
+        obtain ⟨w2, hin2, hr2, hc2, hls, hlen, houts⟩ := ih hin1 hr1 hrest
+        simp only [Prod.mk.injEq] at hc1 hc2
+        refine ⟨w2, hin2, hr2, ?_, ?_, ?_, ?_⟩
+        · simp only [Prod.mk.injEq]
+          exact ⟨hc2.1.trans hc1.1, hc2.2.1.trans hc1.2.1, hc2.2.2.trans hc1.2.2⟩
+        · intro l' hl'
+          rcases List.mem_cons.mp hl' with h' | h'
+          · subst h'; exact hl
+          · rw [hls l' h', hc1.1]
+        · simp [hlen]
+        · intro o ho'
+          rcases List.mem_cons.mp ho' with h' | h'
+          · subst h'; exact ho
+          · rw [houts o h', hc1.2.1]
+      · cases h
+      · cases h
+    · cases h
+    · cases h
+
+/-- fresh bookkeeping of a decoder work space: what `reset` leaves -/
+def DecWork.Fresh (w : DecWork) : Prop :=
+  w.orecv = 0 ∧ w.rrecv = 0 ∧ ∀ p, w.recvAt p = false
+
+theorem DecWork.reset_ok_fresh {stale : Stale} {w w' : DecWork} {k r sb ob rb wc : Nat}
+    (h : w.reset stale k r sb ob rb wc = .ok w') :
+    w'.Fresh ∧ (w'.k, w'.r, w'.sb, w'.obase, w'.rbase) = (k, r, sb, ob, rb) := by
+  unfold DecWork.reset at h
+  split at h
+  · cases h
+  · simp only [Outcome.ok.injEq] at h
+    subst h
+    refine ⟨⟨rfl, rfl, ?_⟩, rfl⟩
+    intro p
+    simp only [DecWork.recvAt, Array.getD_eq_getD_getElem?, Array.getElem?_replicate]
+    split <;> rfl
+
+/-- one round of the decoder: adds in any order, decode, read and drop the result -/
+def Decoder.round (lw : Array Nat) (d : Decoder) (l : List AddOp) :
+    Outcome (List (Nat × Array Nat) × Decoder) :=
+  match d.addOps l with
+  | .ok d1 =>
+    match d1.decode lw with
+    | (.ok out, d2) => .ok (out, d2)
+    | (.err er, _) => .err er
+    | (.panic why, _) => .panic why
+  | .err er => .err er
+  | .panic why => .panic why
+
+def Decoder.rounds (lw : Array Nat) (d : Decoder) :
+    List (List AddOp) → Outcome (List (List (Nat × Array Nat)) × Decoder)
+  | [] => .ok ([], d)
+  | l :: ls =>
+    match d.round lw l with
+    | .ok (out, d1) =>
+      match d1.rounds lw ls with
+      | .ok (outs, d2) => .ok (out :: outs, d2)
+      | .err er => .err er
+      | .panic why => .panic why
+    | .err er => .err er
+    | .panic why => .panic why
+
+theorem DecWork.addOp_ok_cfg {w w' : DecWork} {a : AddOp} (h : w.addOp a = .ok w') :
+    (w'.k, w'.r, w'.sb, w'.obase, w'.rbase) = (w.k, w.r, w.sb, w.obase, w.rbase) := by
+  obtain ⟨_, _, _, _, _, e⟩ := DecWork.addOp_ok_iff.mp h
+  subst e
+  rfl
+
+theorem DecWork.addAll_ok_cfg (l : List AddOp) :
+    ∀ {w w' : DecWork}, w.addAll l = .ok w' →
+      (w'.k, w'.r, w'.sb, w'.obase, w'.rbase) = (w.k, w.r, w.sb, w.obase, w.rbase) := by
+  induction l with
+  | nil =>
+    intro w w' h
+    simp only [DecWork.addAll, Outcome.ok.injEq] at h
+    subst h; rfl
+  | cons a l ih =>
+    intro w w' h
+    obtain ⟨w1, h1, h2⟩ := DecWork.addAll_cons_ok_iff.mp h
+    exact (ih h2).trans (DecWork.addOp_ok_cfg h1)
+
+theorem Decoder.round_ok_state {lw : Array Nat} {d d' : Decoder} {l : List AddOp}
+    {out : List (Nat × Array Nat)} {rate : Rate} {w : DecWork} (hin : d.inner = .some rate w)
+    (h : d.round lw l = .ok (out, d')) :
+    ∃ w', d'.inner = .some rate w' ∧ w'.Fresh ∧
+      (w'.k, w'.r, w'.sb, w'.obase, w'.rbase) = (w.k, w.r, w.sb, w.obase, w.rbase) := by
+  unfold Decoder.round at h
+  split at h
+  · rename_i d1 hadd
+    obtain ⟨w1, hw1, hd1⟩ := (Decoder.addOps_ok_iff hin).mp hadd
+    have hin1 : d1.inner = .some rate w1 := by rw [hd1]
+    split at h
+    · rename_i out' d2 hdec
+      simp only [Outcome.ok.injEq, Prod.mk.injEq] at h
+      obtain ⟨ho, hd⟩ := h
+      subst ho; subst hd
+      obtain ⟨w2, hin2, ho2, hr2, hb2, hc2, _⟩ := Decoder.decode_ok_state hin1 hdec
+      exact ⟨w2, hin2, ⟨ho2, hr2, hb2⟩, hc2.trans (DecWork.addAll_ok_cfg l hw1)⟩
+    · cases h
+    · cases h
+  · cases h
+  · cases h
+
+theorem Decoder.rounds_ok_state {lw : Array Nat} (ls : List (List AddOp)) :
+    ∀ {d d' : Decoder} {outs : List (List (Nat × Array Nat))} {rate : Rate} {w : DecWork},
+      d.inner = .some rate w → w.Fresh → d.rounds lw ls = .ok (outs, d') →
+      ∃ w', d'.inner = .some rate w' ∧ w'.Fresh ∧
+        (w'.k, w'.r, w'.sb, w'.obase, w'.rbase) = (w.k, w.r, w.sb, w.obase, w.rbase) ∧
+        outs.length = ls.length := by
+  induction ls with
+  | nil =>
+    intro d d' outs rate w hin hfresh h
+    simp only [Decoder.rounds, Outcome.ok.injEq, Prod.mk.injEq] at h
+    obtain ⟨h1, h2⟩ := h
+    subst h1; subst h2
+    exact ⟨w, hin, hfresh, rfl, rfl⟩
+  | cons l ls ih =>
+    intro d d' outs rate w hin hfresh h
+    simp only [Decoder.rounds] at h
+    split at h
+    · rename_i out d1 hround
+      obtain ⟨w1, hin1, hf1, hc1⟩ := Decoder.round_ok_state hin hround
+      split at h
+      · rename_i outs' d2 hrest
+        simp only [Outcome.ok.injEq, Prod.mk.injEq] at h
+        obtain ⟨h1, h2⟩ := h
+        subst h1; subst h2
+        obtain ⟨w2, hin2, hf2, hc2, hlen⟩ := ih hin1 hf1 hrest
+        exact ⟨w2, hin2, hf2, hc2.trans hc1, by simp [hlen]⟩
+      · cases h
+      · cases h
+    · cases h
+    · cases h
+
+/-! ## C10 — one-shot = streaming -/
+
+theorem useHighRate_error {k r : Nat} {e : Err} (h : useHighRate k r = .error e) :
+    e = .unsupportedShardCount k r := by
+  unfold useHighRate at h
+  split at h
+  · cases h; rfl
+  · simp only at h
+    split at h
+    · cases h; rfl
+    · split at h
+      · cases h
+      · split at h <;> cases h
+
+theorem chooseRate_default_of_unsupported {k r : Nat} (h : supportsDefault k r = false) :
+    chooseRate .default k r = .error (.unsupportedShardCount k r) := by
+  unfold supportsDefault at h
+  unfold chooseRate
+  simp only
+  cases hu : useHighRate k r with
+  | error e => rw [useHighRate_error hu]
+  | ok b => rw [hu] at h; cases h
+
+/-! ### 11. encode -/
+
+/-- the streaming way: create the default-rate encoder with the first shard's size, add every
+    shard in order, encode -/
+def streamEncode (stale : Stale) (k r : Nat) (l : List (Array Nat)) : Outcome (List (Array Nat)) :=
+  match Encoder.new stale .default .twoLayer k r (l.headD #[]).size none with
+  | .ok e =>
+    match e.addAll l with
+    | .ok e1 =>
+      match e1.encode with
+      | (.ok out, _) => .ok out
+      | (.err er, _) => .err er
+      | (.panic why, _) => .panic why
+    | .err er => .err er
+    | .panic why => .panic why
+  | .err er => .err er
+  | .panic why => .panic why
+
+theorem oneShotEncode_addAll_eq (l : List (Array Nat)) :
+    ∀ e : Encoder, oneShotEncode.addAll e l = e.addAll l := by
+  induction l with
+  | nil => intro e; rfl
+  | cons s ss ih =>
+    intro e
+    simp only [oneShotEncode.addAll, Encoder.addAll, stepE]
+    cases hadd : e.add s with
+    | mk o e1 =>
+      cases o with
+      | ok u => simp only [Outcome.bind]; exact ih e1
+      | err er => rfl
+      | panic why => rfl
+
+theorem Encoder.new_unsupported {stale : Stale} {k r sb : Nat} {s : Sched} {wk : Option EncWork}
+    (h : supportsDefault k r = false) :
+    Encoder.new stale .default s k r sb wk = .err (.unsupportedShardCount k r) := by
+  unfold Encoder.new
+  rw [chooseRate_default_of_unsupported h]
+
+/-- the one-shot `encode` is the streaming encoder run on the same input -/
+theorem oneShotEncode_eq_stream (stale : Stale) (k r : Nat) (l : List (Array Nat)) (hl : l ≠ []) :
+    oneShotEncode stale k r l = streamEncode stale k r l := by
+  cases l with
+  | nil => exact absurd rfl hl
+  | cons first rest =>
+    unfold oneShotEncode streamEncode
+    cases hs : supportsDefault k r with
+    | false =>
+      simp only [Bool.not_false, if_true, Encoder.new_unsupported hs]
+    | true =>
+      simp only [Bool.not_true, Bool.false_eq_true, if_false, List.headD_cons]
+      cases Encoder.new stale .default .twoLayer k r first.size none with
+      | err er => rfl
+      | panic why => rfl
+      | ok e =>
+        simp only [Outcome.bind, oneShotEncode_addAll_eq]
+        cases e.addAll (first :: rest) with
+        | err er => rfl
+        | panic why => rfl
+        | ok e1 =>
+          simp only [stepE]
+          cases henc : e1.encode with
+          | mk o e2 =>
+            cases o <;> rfl
+
+theorem oneShotEncode_unsupported (stale : Stale) (k r : Nat) (l : List (Array Nat))
+    (h : supportsDefault k r = false) :
+    oneShotEncode stale k r l = .err (.unsupportedShardCount k r) := by
+  unfold oneShotEncode
+  simp [h]
+
+theorem oneShotEncode_nil (stale : Stale) (k r : Nat) (h : supportsDefault k r = true) :
+    oneShotEncode stale k r [] = .err (.tooFewOriginal k 0) := by
+  unfold oneShotEncode
+  simp [h]
+
+/-! ### 12. decode -/
+
+def Decoder.addOriginals (d : Decoder) : List (Nat × Array Nat) → Outcome Decoder
+  | [] => .ok d
+  | p :: ps =>
+    match d.addOriginal p.1 p.2 with
+    | (.ok _, d1) => d1.addOriginals ps
+    | (.err er, _) => .err er
+    | (.panic why, _) => .panic why
+
+def Decoder.addRecoveries (d : Decoder) : List (Nat × Array Nat) → Outcome Decoder
+  | [] => .ok d
+  | p :: ps =>
+    match d.addRecovery p.1 p.2 with
+    | (.ok _, d1) => d1.addRecoveries ps
+    | (.err er, _) => .err er
+    | (.panic why, _) => .panic why
+
+/-- shard size the one-shot `decode` configures: first recovery shard, else first original -/
+def firstSize (original recovery : List (Nat × Array Nat)) : Nat :=
+  match recovery with
+  | first :: _ => first.2.size
+  | [] => (original.headD (0, #[])).2.size
+
+/-- the streaming way: create the default-rate decoder, add the originals, then the recovery
+    shards, decode -/
+def streamDecode (stale : Stale) (lw : Array Nat) (k r : Nat)
+    (original recovery : List (Nat × Array Nat)) : Outcome (List (Nat × Array Nat)) :=
+  match Decoder.new stale .default .twoLayer k r (firstSize original recovery) none with
+  | .ok d =>
+    match d.addOriginals original with
+    | .ok d1 =>
+      match d1.addRecoveries recovery with
+      | .ok d2 =>
+        match d2.decode lw with
+        | (.ok out, _) => .ok out
+        | (.err er, _) => .err er
+        | (.panic why, _) => .panic why
+      | .err er => .err er
+      | .panic why => .panic why
+    | .err er => .err er
+    | .panic why => .panic why
+  | .err er => .err er
+  | .panic why => .panic why
+
+theorem addAllOriginal_eq (l : List (Nat × Array Nat)) :
+    ∀ d : Decoder, addAllOriginal d l = d.addOriginals l := by
+  induction l with
+  | nil => intro d; rfl
+  | cons p ps ih =>
+    intro d
+    obtain ⟨i, s⟩ := p
+    simp only [addAllOriginal, Decoder.addOriginals, stepE]
+    cases hadd : d.addOriginal i s with
+    | mk o d1 =>
+      cases o with
+      | ok u => simp only [Outcome.bind]; exact ih d1
+      | err er => rfl
+      | panic why => rfl
+
+theorem addAllRecovery_eq (l : List (Nat × Array Nat)) :
+    ∀ d : Decoder, addAllRecovery d l = d.addRecoveries l := by
+  induction l with
+  | nil => intro d; rfl
+  | cons p ps ih =>
+    intro d
+    obtain ⟨i, s⟩ := p
+    simp only [addAllRecovery, Decoder.addRecoveries, stepE]
+    cases hadd : d.addRecovery i s with
+    | mk o d1 =>
+      cases o with
+      | ok u => simp only [Outcome.bind]; exact ih d1
+      | err er => rfl
+      | panic why => rfl
+
+theorem Decoder.new_unsupported {stale : Stale} {k r sb : Nat} {s : Sched} {wk : Option DecWork}
+    (h : supportsDefault k r = false) :
+    Decoder.new stale .default s k r sb wk = .err (.unsupportedShardCount k r) := by
+  unfold Decoder.new
+  rw [chooseRate_default_of_unsupported h]
+
+/-- the one-shot `decode` is the streaming decoder run on the same input -/
+theorem oneShotDecode_eq_stream (stale : Stale) (lw : Array Nat) (k r : Nat)
+    (original recovery : List (Nat × Array Nat)) (hne : original ≠ [] ∨ recovery ≠ []) :
+    oneShotDecode stale lw k r original recovery = streamDecode stale lw k r original recovery := by
+  unfold oneShotDecode streamDecode
+  cases hs : supportsDefault k r with
+  | false =>
+    simp only [Bool.not_false, if_true, Decoder.new_unsupported hs]
+  | true =>
+    simp only [Bool.not_true, Bool.false_eq_true, if_false]
+    cases recovery with
+    | cons first rest =>
+      simp only [firstSize]
+      cases Decoder.new stale .default .twoLayer k r first.2.size none with
+      | err er => rfl
+      | panic why => rfl
+      | ok d =>
+        simp only [Outcome.bind, addAllOriginal_eq, addAllRecovery_eq]
+        cases d.addOriginals original with
+        | err er => rfl
+        | panic why => rfl
+        | ok d1 =>
+          simp only
+          cases d1.addRecoveries (first :: rest) with
+          | err er => rfl
+          | panic why => rfl
+          | ok d2 =>
+            simp only [stepE]
+            cases hdec : d2.decode lw with
+            | mk o d3 => cases o <;> rfl
+    | nil =>
+      cases original with
+      | nil => rcases hne with h | h <;> exact absurd rfl h
+      | cons first rest =>
+        simp only [firstSize, List.headD_cons]
+        cases Decoder.new stale .default .twoLayer k r first.2.size none with
+        | err er => rfl
+        | panic why => rfl
+        | ok d =>
+          simp only [Outcome.bind, addAllOriginal_eq]
+          cases d.addOriginals (first :: rest) with
+          | err er => rfl
+          | panic why => rfl
+          | ok d1 =>
+            simp only [Decoder.addRecoveries, stepE]
+            cases hdec : d1.decode lw with
+            | mk o d3 => cases o <;> rfl
+
+theorem oneShotDecode_unsupported (stale : Stale) (lw : Array Nat) (k r : Nat)
+    (original recovery : List (Nat × Array Nat)) (h : supportsDefault k r = false) :
+    oneShotDecode stale lw k r original recovery = .err (.unsupportedShardCount k r) := by
+  unfold oneShotDecode
+  simp [h]
+
+theorem oneShotDecode_nil (stale : Stale) (lw : Array Nat) (k r : Nat)
+    (h : supportsDefault k r = true) :
+    oneShotDecode stale lw k r [] [] = .err (.notEnoughShards k 0 0) := by
+  unfold oneShotDecode
+  simp [h]
+
+/-! ## complements -/
+
+/-- the iterator yields `recovery 0, …, recovery (r-1)` in order, then `none` forever -/
+theorem recoveryTake_eq_map (w : EncWork) (n : Nat) :
+    recoveryTake w (w.r + n) {}
+      = ((List.range w.r).map fun i => w.recovery i) ++ List.replicate n none := by
+  have h := recoveryTake_from w w.r 0 n (by omega)
+  rw [← List.range_eq_range'] at h
+  exact h
+
+theorem mem_restoredList_iff (w : DecWork) (i : Nat) (s : Array Nat) :
+    (i, s) ∈ w.restoredList ↔ w.restoredOriginal i = some s := by
+  unfold DecWork.restoredList
+  rw [List.mem_filterMap]
+  constructor
+  · rintro ⟨a, _, ha⟩
+    cases hr : w.restoredOriginal a with
+    | none => rw [hr] at ha; cases ha
+    | some s' =>
+      rw [hr] at ha
+      simp only [Option.map_some, Option.some.injEq, Prod.mk.injEq] at ha
+      obtain ⟨h1, h2⟩ := ha
+      subst h1; subst h2
+      exact hr
+  · intro h
+    have hsome : (w.restoredOriginal i).isSome = true := by rw [h]; rfl
+    have hik := ((restoredOriginal_isSome_iff w i).mp hsome).1
+    exact ⟨i, List.mem_range.mpr hik, by rw [h]; rfl⟩
+
+/-- non-vacuity of the commutation / permutation hypotheses: on a fresh dedicated high-rate
+    decoder both orders of an original and a recovery add succeed -/
+example : ∃ d d1, Decoder.new (fun L _ => Vector.replicate L 0#16) .high .naive 1 1 2 none = .ok d ∧
+    d.addOps [.orig 0 #[1, 2], .recov 0 #[3, 4]] = .ok d1 ∧
+    d.addOps [.recov 0 #[3, 4], .orig 0 #[1, 2]] = .ok d1 := by
+  refine ⟨_, _, rfl, rfl, ?_⟩
+  rfl
+
+#print axioms recovery_isSome_iff
+#print axioms recovery_size
+#print axioms recoveryList_eq
+#print axioms recoveryList_length
+#print axioms recoveryList_getElem?
+#print axioms recoveryTake_eq
+#print axioms recoveryTake_eq_map
+#print axioms restoredOriginal_isSome_iff
+#print axioms restoredSearch_eq_some_iff
+#print axioms restoredSearch_eq_none_iff
+#print axioms restoredTake_eq
+#print axioms mem_restoredList_iff
+#print axioms Encoder.encode_ok_state
+#print axioms Decoder.decode_ok_state
+#print axioms Encoder.rounds_ok_state
+#print axioms Decoder.rounds_ok_state
+#print axioms EncWork.reset_ok_recv
+#print axioms DecWork.reset_ok_fresh
+#print axioms given_not_restored
+#print axioms all_given_empty
+#print axioms decode_all_given
+#print axioms DecWork.addOp_comm
+#print axioms addOriginal_addRecovery_comm
+#print axioms addRecovery_addOriginal_comm
+#print axioms addOriginal_addOriginal_comm
+#print axioms addRecovery_addRecovery_comm
+#print axioms le_npow2
+#print axioms windows_disjoint
+#print axioms addAll_perm
+#print axioms Decoder.addOps_perm
+#print axioms Decoder.decode_perm
+#print axioms oneShotEncode_eq_stream
+#print axioms oneShotEncode_unsupported
+#print axioms oneShotEncode_nil
+#print axioms oneShotDecode_eq_stream
+#print axioms oneShotDecode_unsupported
+#print axioms oneShotDecode_nil
+
 end RS
